@@ -22,14 +22,20 @@ def make_doc(accessor, tag):
         top.release.name = "Product at %d" % tag
     elif accessor == "images":
         top, _ = C06.base_images(tag % 3)
+        if tag % 2 == 0:
+            top.images.clear()
         top.compose.respin = tag
     elif accessor == "rpms":
         top = C06.base_compose_only(Rpms)
         top.compose.respin = tag
+        if tag % 2 == 0:
+            return top.dumps()          # a manifest without entries (a compose without such content) is a manifest like any other
         top.add("Server", "x86_64", "glibc-0:2.18-11.fc20.x86_64", "Server/x86_64/os/g/glibc-%d.rpm" % tag, None, "binary", "glibc-0:2.18-11.fc20.src.rpm")
     else:
         top = C06.base_compose_only(Modules)
         top.compose.respin = tag
+        if tag % 2 == 0:
+            return top.dumps()
         top.add("Server", "x86_64", "ruby:2.5:20180123:c0ffee", "tag-%d" % tag, "Server/x86_64/os/repodata/m.yaml", "binary", ["ruby-0:2.5-1.x86_64"])
     return top.dumps()
 
@@ -272,6 +278,7 @@ META = {
         "metadata directories and every current/legacy file name of the accessor), one existence bit per path constrained only by 'a path exists only if its parent does'; "
         "listdir returns the existing children in every order",
         "the opened directory's own name is 'root' or one of 'compose', 'metadata', '1.0', 'compose.old' (names the prober itself looks for)",
+        "every second manifest file (images / rpms / modules) is one without entries",
         "files hold distinct concrete valid documents written by the real writers (or an undecodable / foreign-type one where stated)",
         "where the property is silent (a direct metadata/ next to a legacy subdirectory, several legacy subdirectories) any candidate location is accepted",
         "remote locations: urlopen is answered from the same symbolic file system (200 with the content if the path exists, 404 otherwise; contract in psx/stubs.py); "
